@@ -166,13 +166,34 @@ class Report:
             return 3
         return 1 if self.violations else 0
 
+    def _proved_elsewhere(self, key):
+        import glob
+        if not hasattr(self, '_base_cache'):
+            self._base_cache = {}
+            for f in sorted(glob.glob(os.path.join(ROOT, 'baseline', '*.json'))):
+                try:
+                    with open(f) as fh:
+                        b = json.load(fh)
+                except Exception:
+                    continue
+                for k, v in b.items():
+                    if isinstance(v, dict) and v.get('proved'):
+                        self._base_cache.setdefault(k, os.path.basename(f)[:-5])
+        return self._base_cache.get(key)
+
     def assumed_contracts(self):
-        from pyvc import api
-        called = {c for r in self.proof_results for c in r.get('called', [])}
-        proved_here = {r['key'] for r in self.proof_results}
+        """contracts that the proofs of this run rely on without having discharged them in this run"""
+        proved_here = {r['key'] for r in self.proof_results
+                       if not r['unsupported'] and r['obligations'] and all(o['verdict'] == 'unsat' for o in r['obligations'])}
         out = set()
-        for c in called:
-            con = api.CONTRACTS.get(c)
-            if con is not None and (con.assumed or c not in proved_here):
-                out.add(c + (' (assumed)' if con.assumed else ' (proved under another property)'))
+        for r in self.proof_results:
+            assumed = r.get('called_assumed', {})
+            for c in r.get('called', []):
+                if c in assumed:
+                    out.add('%s (assumed: %s)' % (c, assumed[c][:140]))
+                elif c not in proved_here:
+                    where = self._proved_elsewhere(c)
+                    out.add('%s (%s)' % (c, ('proved by check %s' % where) if where else 'contract used but NOT proved by any check'))
+            for c, conds in r.get('called_conditional', {}).items():
+                out.add('%s (conditional: verified under %s)' % (c, ' and '.join(conds)[:200]))
         return out
